@@ -65,6 +65,8 @@ func checkC04(c *Ctx) {
 	timestampDecoderPrecision(c, "R04n")
 	r.Rule("R04o", "timestamp_format encoders format instants in UTC (the zone the decoder parses in)", 2)
 	timestampEncoderUTC(c, "R04o")
+	r.Rule("R04p", "integer codecs: no emitted conversion of the field's value changes its sign or narrows it (type-checked shape worlds, every 64-bit kind x cardinality)", 4)
+	checkWorldConversions(c, "R04p")
 
 	type siteAgg struct {
 		pos  string
